@@ -4,7 +4,7 @@ model (time; every header field represented exactly once; min/max rows = '%.3g' 
 of the per-box header tables); a marinated reader is unpickled and compared (metadata, bits)."""
 import os, re, sys, random, pickle, subprocess
 import numpy as np
-from .. import common, gen, refparse, workload, pools, contracts
+from .. import common, gen, refparse, workload, pools, contracts, endurance
 
 ID = "C18"
 LEVEL = "exploration"
@@ -17,7 +17,7 @@ RULE = ("cases = generated plotfiles (odd/even field counts incl. 1, with/withou
         "species, or colliding unknown names")
 ASSUMPTIONS = ["menu tables are parsed only when no field name holds a blank (they cannot be tokenised otherwise); minuterie and marinate are judged for every name",
                "generator trusted; min/max tables hold no NaN"]
-REQUIRED_OBS = {"menu_views_judged": 60, "menu_runs": 60, "minmax_tables": 20, "odd_counts": 4, "no_species": 3,
+REQUIRED_OBS = {"endurance_calls": 100, "menu_views_judged": 60, "menu_runs": 60, "minmax_tables": 20, "odd_counts": 4, "no_species": 3,
                 "colliding_names": 3, "names_with_blanks": 2, "minuterie": 8, "marinate": 5, "subprocess_runs": 1}
 TIMEOUT = {"quick": 300, "thorough": 1500}
 
@@ -63,7 +63,8 @@ def cases(tier, seed):
                  time=[0.0, -2.5, 1e300, 3.25e-7, 7.0, 123456.789, float("inf"), float("-inf"), float("nan"), -0.0][(i * 7 + rng.randrange(2)) % 10])
         # every fourth case: extrema on a decimal tie at the third significant digit (2.665 -> 2.67, -1.145 -> -1.15)
         cs.append({"gen": g, "sel_seed": seed * 73 + i, "subprocess": i < 2, "ties": i % 4 == 2})
-    return workload.add_reach_store(cs)
+    # M10: the same operation repeated in one process under a low open-file limit (vlib/endurance.py)
+    return list(workload.add_reach_store(cs)) + [endurance.case("menu", tier, seed)]
 
 
 def setup():
@@ -119,6 +120,8 @@ def fmt3(x):
 
 
 def run_case(case, work, rec):
+    if case.get("kind") == "endurance":
+        return endurance.run_case(case, work, rec)
     rng = random.Random(case["sel_seed"])
     m, path = workload.build(case, work)
     names = m.names
